@@ -78,26 +78,69 @@ fn run_case(c: &Case) -> Result<Stat, String> {
 /// type); the smallest failing case of each class is what gets reported (one
 /// replay file per class), and the number of failing cases per class is in the
 /// evidence counters.
-fn class_key(c: &Case) -> String {
-    match c {
-        Case::Bin { dl, dr, op, .. } => {
-            if dl == dr {
-                format!("Interval::apply_operator/{op}/{}", dl.class())
+/// Input-shape signature used to split the classes of the arithmetic
+/// operators, so that a failure in a *different* region of the input space
+/// than an already known one shows up under a new key.
+fn shape(d: D, op: &str, l: &Iv, r: &Iv) -> &'static str {
+    if d.is_float() {
+        return "any";
+    }
+    let has0 = |iv: &Iv| d.member(iv, 0);
+    let near0 = |iv: &Iv| [iv.lo, iv.hi].into_iter().flatten().any(|e| (-1..=1).contains(&e));
+    match op {
+        "Multiply" => match (has0(l), has0(r)) {
+            (true, true) => "zero-in-both-operands",
+            (false, false) => "zero-in-no-operand",
+            _ => "zero-in-one-operand",
+        },
+        "Divide" => {
+            if near0(l) || near0(r) {
+                "an-endpoint-in-[-1,1]"
             } else {
-                format!("Interval::apply_operator/{op}/mixed")
+                "no-endpoint-in-[-1,1]"
             }
         }
-        Case::Set { dl, dr, f, .. } => format!("Interval::{f}/{}", if dl == dr { dl.class() } else { "mixed" }),
+        _ => "any",
+    }
+}
+
+fn class_key(c: &Case, value_failure: bool) -> String {
+    match c {
+        // a wrong value bound computed by the wrapped plain interval: same root cause, same class
+        Case::NBin { d, op, l, r, .. } if value_failure => format!("Interval::apply_operator/{op}/{}/{}", d.class(), shape(*d, op, &l.iv, &r.iv)),
+        Case::Bin { dl, dr, op, l, r, .. } => {
+            // mixed integer types are coerced first and then take the same code path
+            let d = if dl.bits() >= dr.bits() { dl } else { dr };
+            format!("Interval::apply_operator/{op}/{}/{}", dl.class(), shape(*d, op, l, r))
+        }
+        Case::Set { dl, dr, f, .. } => format!("Interval::{f}/{}", if dl == dr { dl.class() } else { "mixed-integer" }),
         Case::Un { d, f, .. } => format!("Interval::{f}/{}", d.class()),
         Case::Cast { d, to, .. } => format!("Interval::cast_to/{}->{}", d.class(), to.class()),
         Case::Bool { f, .. } => format!("Interval(bool)::{f}"),
+        Case::NBin { op, .. } if op.starts_with("Is") => "NullableInterval::apply_operator/Is[Not]DistinctFrom".into(),
         Case::NBin { d, op, .. } => format!("NullableInterval::apply_operator/{op}/{}", d.class()),
+        Case::NBoolBin { f, .. } if f.starts_with("apply_Is") => "NullableInterval::apply_operator/Is[Not]DistinctFrom".into(),
         Case::NBoolBin { f, .. } => format!("NullableInterval(bool)::{f}"),
+        Case::NBoolUn { f, .. } if f == "single_value" => "NullableInterval::single_value".into(),
         Case::NBoolUn { f, .. } => format!("NullableInterval(bool)::{f}"),
         Case::NUn { f, .. } => format!("NullableInterval::{f}"),
         Case::Sat { d, strict, .. } => format!("satisfy_greater/strict={strict}/{}", d.class()),
-        Case::PCmp { d, op, parent, .. } => format!("propagate_comparison/{op}/parent={}/{}", parent, d.class()),
-        Case::PArith { d, op, .. } => format!("propagate_arithmetic/{op}/{}", d.class()),
+        Case::PCmp { d, op, parent, .. } => {
+            if *parent == 0 {
+                "propagate_comparison/parent=FALSE".into()
+            } else {
+                format!("propagate_comparison/{op}/parent=TRUE/{}", d.class())
+            }
+        }
+        Case::PArith { d, op, l, r, .. } => {
+            if d.is_float() {
+                format!("propagate_arithmetic/{}/float", if op == "Plus" || op == "Minus" { "PlusMinus" } else { op.as_str() })
+            } else if op == "Multiply" {
+                format!("propagate_arithmetic/Multiply/integer/{}", shape(*d, op, l, r))
+            } else {
+                format!("propagate_arithmetic/{op}/integer")
+            }
+        }
         Case::Graph { mode, e, given, .. } => {
             let g = match given {
                 Given::Bool(b) => format!("{b}"),
@@ -119,12 +162,17 @@ fn class_key(c: &Case) -> String {
                 "with-multiply"
             } else if has("Or") {
                 "with-or"
-            } else if has("And") {
-                "with-and"
             } else {
-                "plain"
+                "plus-minus-compare-and"
             };
-            if mode == "update_ranges" { format!("ExprIntervalGraph::{mode}/given={g}/{flavour}") } else { format!("ExprIntervalGraph::{mode}/{flavour}") }
+            if mode == "update_ranges" && g == "false" {
+                // every comparison / conjunction under a FALSE root is affected
+                "ExprIntervalGraph::update_ranges/given=false".into()
+            } else if mode == "update_ranges" {
+                format!("ExprIntervalGraph::{mode}/given={g}/{flavour}")
+            } else {
+                format!("ExprIntervalGraph::{mode}/{flavour}")
+            }
         }
         Case::Temporal { t } => temporal::class_key(t),
     }
@@ -138,7 +186,7 @@ struct Part<'a> {
     claims: AtomicU64,
     errs: AtomicU64,
     zero_gap: AtomicU64,
-    fails: Mutex<Vec<(usize, String, String, String)>>, // (len, json, class, what)
+    fails: Mutex<BTreeMap<String, (u64, (usize, String, String))>>, // class -> (count, smallest (len, json, what))
 }
 
 impl<'a> Part<'a> {
@@ -151,11 +199,12 @@ impl<'a> Part<'a> {
             claims: AtomicU64::new(0),
             errs: AtomicU64::new(0),
             zero_gap: AtomicU64::new(0),
-            fails: Mutex::new(vec![]),
+            fails: Mutex::new(BTreeMap::new()),
         }
     }
     fn stop(&self) -> bool {
-        self.ctx.should_stop() || self.fails.lock().unwrap().len() > 20_000
+        // classes of violations are few; do not let them cut the exploration short
+        self.ctx.out_of_time()
     }
     fn go(&self, c: Case) {
         self.ctx.eval();
@@ -177,32 +226,44 @@ impl<'a> Part<'a> {
             }
             Err(what) => {
                 let j = serde_json::to_string(&c).unwrap();
-                self.fails.lock().unwrap().push((j.len(), j, class_key(&c), what));
+                let (value_failure, what) = match what.strip_prefix("@value@") {
+                    Some(w) => (true, w.to_string()),
+                    None => (false, what),
+                };
+                let cand = (j.len(), j, what);
+                let mut f = self.fails.lock().unwrap();
+                let e = f.entry(class_key(&c, value_failure)).or_insert_with(|| (0, cand.clone()));
+                e.0 += 1;
+                if cand < e.1 {
+                    e.1 = cand;
+                }
             }
         }
     }
     fn finish(self) {
         let n = self.name;
+        if std::env::var("C23_TIMING").is_ok() {
+            eprintln!("part {n}: done at {:.1}s, {} cases", self.ctx.elapsed().as_secs_f64(), self.cases.load(Ordering::Relaxed));
+        }
         self.ctx.count(&format!("{n}.cases"), self.cases.load(Ordering::Relaxed));
         self.ctx.count(&format!("{n}.member_checks"), self.checks.load(Ordering::Relaxed));
         self.ctx.count(&format!("{n}.cases_with_claim"), self.claims.load(Ordering::Relaxed));
         self.ctx.count(&format!("{n}.impl_returned_err"), self.errs.load(Ordering::Relaxed));
         let z = self.zero_gap.load(Ordering::Relaxed);
         if z > 0 {
-            self.ctx.count(&format!("{n}.signed_zero_only_gap"), z);
-        }
-        let mut fails = self.fails.into_inner().unwrap();
-        fails.sort();
-        let mut per: BTreeMap<String, u64> = BTreeMap::new();
-        for (_, j, class, what) in &fails {
-            let e = per.entry(class.clone()).or_insert(0);
-            *e += 1;
-            if *e == 1 {
-                let case: Value = serde_json::from_str(j).unwrap();
-                self.ctx.violation(class.clone(), what.clone(), case);
+            if n == "temporal" {
+                // observation, not a violation: day-time values whose millisecond part is a day or
+                // more / has the opposite sign are ordered lexicographically by the engine, so they
+                // are members of a range although their duration lies outside of it
+                self.ctx.count("temporal.non_normalised_daytime_member_outside_result", z);
+            } else {
+                self.ctx.count(&format!("{n}.signed_zero_only_gap"), z);
             }
         }
-        for (class, k) in per {
+        let fails = self.fails.into_inner().unwrap();
+        for (class, (k, (_, j, what))) in fails {
+            let case: Value = serde_json::from_str(&j).unwrap();
+            self.ctx.violation(class.clone(), what, case);
             self.ctx.count(&format!("failing_cases[{class}]"), k);
         }
     }
